@@ -93,6 +93,9 @@ impl<'a, Tb: Table> TableRef<'a, Tb> {
         let s = Tb::slot(self.0);
         if *k == s.probe { let v = s.value.borrow_mut().take(); if v.is_some() { s.removals.set(s.removals.get() + 1); } Ok(v) } else { s.touched_elsewhere.set(s.touched_elsewhere.get() + 1); Ok(None) }
     }
+    // (the whole table API is offered so that a change of WHICH operation the code uses still compiles and is judged by its effect)
+    pub fn insert(&self, k: &Tb::Key, v: &Tb::Value) -> Result<(), StorageError> { self.replace(k, v).map(|_| ()) }
+    pub fn remove(&self, k: &Tb::Key) -> Result<(), StorageError> { self.take(k).map(|_| ()) }
     pub fn replace(&self, k: &Tb::Key, v: &Tb::Value) -> Result<Option<Tb::Value>, StorageError> {
         if self.0.fails { return Err(StorageError) }
         let s = Tb::slot(self.0);
